@@ -323,6 +323,22 @@ def step (st : State) (line : String) : State × String :=
       (st, "d=" ++ d.result ++ " l=" ++ l.result ++ " dread=" ++ hx d.read ++ " lread=" ++ hx l.read ++
         " dw=" ++ hx dl.log ++ " lw=" ++ hx ld.log)
     | _, _, _, _, _ => (st, "bad-op")
+  | "refneg" :: rest =>
+    -- litep2p on side `role`, the reference implementation (same protocol) on the other: the model of
+    -- the pair, with the reference side's error collapsed to `err`
+    match version? (arg? "ver" rest), argList "dialer" rest, argList "listener" rest, argBytes "dpay" rest,
+      argBytes "lpay" rest, arg? "role" rest with
+    | some v, some ps, some ls, some dpay, some lpay, some role =>
+      if role ≠ "dial" ∧ role ≠ "listen" then (st, "bad-op")
+      else
+        let d : Side := { m := .dialer (Dialer.init v ps), pay := dpay }
+        let l : Side := { m := .listener (Listener.init ls), pay := lpay }
+        let (d, l, _, _) := runBoth (stepLimit ps + stepLimit ls + dpay.length) d l {} {}
+        let collapse (r : String) : String := if r.startsWith "err:" then "err" else r
+        let dr := if role = "dial" then d.result else collapse d.result
+        let lr := if role = "listen" then l.result else collapse l.result
+        (st, "d=" ++ dr ++ " l=" ++ lr ++ " dread=" ++ hx d.read ++ " lread=" ++ hx l.read)
+    | _, _, _, _, _, _ => (st, "bad-op")
   | role :: rest =>
     if role = "dial" ∨ role = "listen" then
       match version? (arg? "ver" rest), argList "protos" rest, argBytes "pay" rest, argBytes "peer" rest with
